@@ -7,6 +7,7 @@ def _import(ctx, pid, rep):
     s = dict(rep["scenario"])
     s["id"] = 1
     events, _ = core.vh(ctx, "importclosure", [s])
+    events = [e for e in events if e["e"] != "start"]
     prints, _, _ = core.validate(ctx, "ImportClosureTrace", "ImportClosureTrace.cfg", events)
     fam_import._judge(ctx, pid, [s], events, prints)
     return [v["sig"] for v in ctx.violations]
